@@ -6,9 +6,13 @@
 //! surrounding whitespace), its accessors must recompose it, it must survive parse / serde /
 //! CoreDID round trips, and Eq/Ord/Hash must agree with model equality. Inputs in the grammar up to
 //! ASCII case must be accepted by the string paths and yield the spelled (network, tag).
+//! Values of type `IotaDID` also leave the library through documents (`IotaDocument::id()` / `controller()` cast the
+//! stored generic DIDs unchecked): family (f) builds documents through every route that turns foreign data into an
+//! `IotaDocument` and judges each DID the accessors hand out, validity and normal form under separate signatures.
 use identity_core::convert::{FromJson, ToJson};
 use identity_did::{BaseDIDUrl, CoreDID, DID};
-use identity_iota_core::{IotaDID, NetworkName};
+use identity_document::document::CoreDocument;
+use identity_iota_core::{IotaDID, IotaDocument, IotaDocumentMetadata, NetworkName, StateMetadataDocument, StateMetadataEncoding};
 use serde_json::json;
 use std::cmp::Ordering;
 use std::collections::hash_map::DefaultHasher;
@@ -1140,6 +1144,613 @@ fn grid(cx: &mut Ctx, args: &Args, stride: u64, rng: &mut Rng) {
   cx.rep.note("grid_size", json!(idx));
 }
 
+// ------------------------------------------------------------------------------------------------
+// (f) IOTA DIDs exposed by documents
+// ------------------------------------------------------------------------------------------------
+
+/// The VALIDITY clauses of the statement only (normal form is judged separately): method `iota`, a network (the
+/// default one may be omitted or spelled out) of 1-6 lowercase alphanumerics, a tag of "0x" + exactly 64 hex digits
+/// in either case, no path / query / fragment, nothing else. Otherwise the clause that fails.
+fn loosely_valid(s: &str) -> Result<(), &'static str> {
+  if s.contains(['/', '?', '#']) {
+    return Err("url-parts");
+  }
+  if s.chars().any(|c| c.is_whitespace() || c.is_control()) {
+    return Err("whitespace");
+  }
+  let Some(rest) = s.strip_prefix("did:") else { return Err("bad-scheme") };
+  let segs: Vec<&str> = rest.split(':').collect();
+  if segs[0] != "iota" {
+    return Err("bad-method");
+  }
+  let (net, tag) = match segs.len() {
+    2 => ("iota", segs[1]),
+    3 => (segs[1], segs[2]),
+    _ => return Err("bad-segment-count"),
+  };
+  if !valid_net(net) {
+    return Err("bad-network");
+  }
+  if alias_tag(tag).is_none() {
+    return Err("bad-tag");
+  }
+  Ok(())
+}
+
+/// What the harness writes into an `id` / `controller` position of a document.
+#[derive(Clone, Debug)]
+enum Slot {
+  /// the document's own DID: the placeholder `did:0:0` in state metadata, the own DID in normal form elsewhere
+  Own,
+  /// a spelled-out DID: text, kind, class (0 = normal form, 1 = valid but not normalised, 2 = not a valid IOTA DID)
+  Text(String, &'static str, u8),
+}
+
+impl Slot {
+  fn class(&self) -> u8 {
+    match self {
+      Slot::Own => 0,
+      Slot::Text(_, _, c) => *c,
+    }
+  }
+  fn kind(&self) -> &'static str {
+    match self {
+      Slot::Own => "own",
+      Slot::Text(_, k, _) => k,
+    }
+  }
+  /// method `iota`, but malformed network / tag / segment count
+  fn malformed_iota(&self) -> bool {
+    matches!(self, Slot::Text(t, _, 2) if t.starts_with("did:iota:"))
+  }
+}
+
+/// Every way the harness spells a DID into a document position, around one (valid network name, tag).
+fn slot_spellings(net: &str, tag: &[u8; 32]) -> Vec<(String, &'static str, u8)> {
+  let hex = hex_lower(tag);
+  let up = hex.to_ascii_uppercase();
+  let mixed: String = hex.chars().enumerate().map(|(i, c)| if i % 3 == 0 { c.to_ascii_uppercase() } else { c }).collect();
+  let t = format!("0x{}", hex);
+  let canon = normal(&Model { net: net.to_string(), tag: *tag });
+  let named = if net == "iota" { "rms" } else { net };
+  let mut v: Vec<(String, &'static str, u8)> = vec![
+    (canon.clone(), "canon", 0),
+    (format!("did:iota:{}:{}", named, t), "canon-named", 0),
+    (format!("did:iota:{}", t), "canon-default", 0),
+    // valid, not normalised
+    (format!("did:iota:{}:0x{}", named, up), "hex-upper", 1),
+    (format!("did:iota:0x{}", up), "hex-upper-default", 1),
+    (format!("did:iota:{}:0x{}", named, mixed), "hex-mixed", 1),
+    (format!("did:iota:iota:{}", t), "explicit-default", 1),
+    (format!("did:iota:iota:0x{}", up), "explicit-default-upper", 1),
+    (format!("did:iota:{}:0X{}", named, hex), "0X", 1),
+    // another method
+    ("did:example:123".to_string(), "m-example", 2),
+    (format!("did:key:{}", t), "m-key", 2),
+    (format!("did:iotax:{}", t), "m-iotax", 2),
+    (format!("did:iotax:{}:{}", named, t), "m-iotax", 2),
+    (format!("did:iot:{}", t), "m-iot", 2),
+    (format!("did:IOTA:{}", t), "m-upper", 2),
+    (format!("did:jwk:{}", t), "m-jwk", 2),
+    // network
+    (format!("did:iota:toolong:{}", t), "n-long", 2),
+    (format!("did:iota:abcdefg:{}", t), "n-long", 2),
+    (format!("did:iota:abcdefghijklmnop:{}", t), "n-long", 2),
+    (format!("did:iota::{}", t), "n-empty", 2),
+    (format!("did:iota:a-b:{}", t), "n-char", 2),
+    (format!("did:iota:a_b:{}", t), "n-char", 2),
+    (format!("did:iota:a.b:{}", t), "n-char", 2),
+    (format!("did:iota:{}:{}", named.to_ascii_uppercase(), t), "n-upper", 2),
+    (format!("did:iota:IOTA:{}", t), "n-upper", 2),
+    (format!("did:iota:sm%72:{}", t), "n-pct", 2),
+    (format!("did:iota:sm\u{e9}:{}", t), "n-nonascii", 2),
+    // tag
+    (format!("did:iota:{}:0x{}", named, &hex[..62]), "t-short", 2),
+    (format!("did:iota:0x{}", &hex[..62]), "t-short", 2),
+    (format!("did:iota:{}:0x{}ab", named, hex), "t-long", 2),
+    (format!("did:iota:0x{}{}", hex, hex), "t-long", 2),
+    (format!("did:iota:{}:0x{}", named, &hex[..63]), "t-odd", 2),
+    (format!("did:iota:{}:0x{}zz", named, &hex[..62]), "t-nonhex", 2),
+    (format!("did:iota:0x{}g{}", &hex[..31], &hex[32..]), "t-nonhex", 2),
+    (format!("did:iota:{}:{}", named, hex), "t-no0x", 2),
+    (format!("did:iota:{}", hex), "t-no0x", 2),
+    (format!("did:iota:{}:0x0x{}", named, hex), "t-0x0x", 2),
+    (format!("did:iota:{}:0x", named), "t-empty", 2),
+    (format!("did:iota:{}:", named), "t-empty", 2),
+    (format!("did:iota:{}", named), "t-missing", 2),
+    ("did:iota:0".to_string(), "t-missing", 2),
+    // segments
+    (format!("did:iota:{}:dev:{}", named, t), "s-extra", 2),
+    (format!("did:iota:iota:iota:{}", t), "s-extra", 2),
+    (format!("did:iota:iota:{}:{}", named, t), "s-extra", 2),
+    (format!("did:iota:{}:{}", t, named), "s-swapped", 2),
+    (format!("did:iota:{}:{}", t, t), "s-tag-tag", 2),
+    (format!("did:iota:{}:{}:", named, t), "s-trailing-colon", 2),
+    // DID URL parts, whitespace, not a DID
+    (format!("did:iota:{}:{}#frag", named, t), "u-fragment", 2),
+    (format!("did:iota:{}/path", t), "u-path", 2),
+    (format!("did:iota:{}:{}?q=1", named, t), "u-query", 2),
+    (format!("did:iota:{}:{} ", named, t), "w-trailing", 2),
+    (format!("did:iota:{}\n", t), "w-trailing", 2),
+    (format!(" did:iota:{}", t), "w-leading", 2),
+    (format!("DID:iota:{}", t), "x-scheme", 2),
+    (format!("iota:{}", t), "x-scheme", 2),
+    (String::new(), "x-empty", 2),
+    (t.clone(), "x-bare-tag", 2),
+  ];
+  // the class used for generation and counters is the verdict of the harness's own grammar, not the label above
+  for (s, k, c) in v.iter_mut() {
+    let want: u8 = match (strict_normal(s).is_ok(), loosely_valid(s).is_ok()) {
+      (true, _) => 0,
+      (false, true) => 1,
+      _ => 2,
+    };
+    // (a tag without hex letters or a network name of digits only has no upper-case spelling: such a "variant" is
+    // the normal form itself)
+    let _ = k;
+    *c = want;
+  }
+  v
+}
+
+fn random_slot_text(rng: &mut Rng, net: &str, tag: &[u8; 32], class: u8) -> Slot {
+  let all = slot_spellings(net, tag);
+  let of_class: Vec<&(String, &'static str, u8)> = all.iter().filter(|x| x.2 == class).collect();
+  let (s, k, c) = of_class[rng.usize(of_class.len())].clone();
+  Slot::Text(s, k, c)
+}
+
+struct DocCase {
+  id: Slot,
+  /// (written as a JSON list?, entries); a single entry may be written as a plain string
+  controller: Option<(bool, Vec<Slot>)>,
+  with_method: bool,
+  full_meta: bool,
+  /// coarse descriptor of the case
+  layout: String,
+}
+
+impl DocCase {
+  fn slots(&self) -> impl Iterator<Item = &Slot> {
+    std::iter::once(&self.id).chain(self.controller.iter().flat_map(|c| c.1.iter()))
+  }
+  fn has_invalid(&self) -> bool {
+    self.slots().any(|s| s.class() == 2)
+  }
+  /// a controller list in which a conforming entry stands next to one that is not a valid IOTA DID
+  fn mixed_list(&self) -> bool {
+    self.id.class() != 2
+      && self.controller.as_ref().is_some_and(|c| c.1.iter().any(|s| s.class() == 2) && c.1.iter().any(|s| s.class() != 2))
+  }
+  fn render(&self, sm: bool, own: &str) -> (serde_json::Value, serde_json::Value) {
+    let own_text = if sm { "did:0:0" } else { own };
+    let slot = |s: &Slot| match s {
+      Slot::Own => own_text.to_string(),
+      Slot::Text(t, _, _) => t.clone(),
+    };
+    let mut doc = serde_json::Map::new();
+    doc.insert("id".into(), json!(slot(&self.id)));
+    if let Some((as_list, list)) = &self.controller {
+      if *as_list || list.len() != 1 {
+        doc.insert("controller".into(), json!(list.iter().map(slot).collect::<Vec<String>>()));
+      } else {
+        doc.insert("controller".into(), json!(slot(&list[0])));
+      }
+    }
+    if self.with_method {
+      doc.insert(
+        "verificationMethod".into(),
+        json!([{"id":format!("{}#key-1", own_text),"controller":own_text,"type":"Ed25519VerificationKey2018","publicKeyMultibase":"zH3C2AVvLMv6gmMNam3uVAjZpfkcJCwDwnZn6z3wXmqPV"}]),
+      );
+    }
+    let meta = if self.full_meta { json!({"created":"2023-01-25T15:48:09Z","updated":"2023-01-25T15:48:09Z"}) } else { json!({}) };
+    (serde_json::Value::Object(doc), meta)
+  }
+}
+
+#[derive(Clone, Copy, PartialEq, Eq, Debug)]
+enum Route {
+  Json,
+  Tuple,
+  Unpack,
+  SmJson,
+  PackUnpack,
+  FromCore,
+}
+
+const ALL_ROUTES: [Route; 6] = [Route::Json, Route::Tuple, Route::Unpack, Route::SmJson, Route::PackUnpack, Route::FromCore];
+
+impl Route {
+  fn name(self) -> &'static str {
+    match self {
+      Route::Json => "IotaDocument::from_json",
+      Route::Tuple => "IotaDocument::try_from((CoreDocument, IotaDocumentMetadata))",
+      Route::Unpack => "StateMetadataDocument::unpack(bytes).into_iota_document",
+      Route::SmJson => "StateMetadataDocument::from_json.into_iota_document",
+      Route::PackUnpack => "StateMetadataDocument::from_json.pack -> unpack.into_iota_document",
+      Route::FromCore => "IotaDocument::from(CoreDocument)",
+    }
+  }
+  /// signature stem: one per validation site
+  fn sig(self) -> &'static str {
+    match self {
+      Route::Json => "json",
+      Route::Tuple => "try_from-tuple",
+      Route::Unpack | Route::SmJson | Route::PackUnpack => "state-metadata",
+      Route::FromCore => "from-core-document",
+    }
+  }
+  fn state_metadata(self) -> bool {
+    matches!(self, Route::Unpack | Route::SmJson | Route::PackUnpack)
+  }
+}
+
+/// State metadata written by the harness: marker, version 1, encoding 0 (JSON), u16 LE length, payload.
+fn packed_state_metadata(payload: &[u8]) -> Option<Vec<u8>> {
+  let len = u16::try_from(payload.len()).ok()?;
+  let mut b = Vec::with_capacity(7 + payload.len());
+  b.extend_from_slice(b"DID");
+  b.push(1);
+  b.push(0);
+  b.extend_from_slice(&len.to_le_bytes());
+  b.extend_from_slice(payload);
+  Some(b)
+}
+
+/// `None` = the route cannot be taken (a preparatory step outside the route refused the input).
+fn build_document(route: Route, sub: u64, doc: &serde_json::Value, meta: &serde_json::Value, own: &IotaDID) -> Result<Option<Result<IotaDocument, String>>, PanicRec> {
+  let whole = json!({"doc":doc,"meta":meta});
+  let text = whole.to_string();
+  catch(|| match route {
+    Route::Json => Some(match sub % 5 {
+      0 => IotaDocument::from_json(&text).map_err(|e| e.to_string()),
+      1 => IotaDocument::from_json_slice(text.as_bytes()).map_err(|e| e.to_string()),
+      2 => IotaDocument::from_json_value(whole.clone()).map_err(|e| e.to_string()),
+      3 => serde_json::from_str::<IotaDocument>(&text).map_err(|e| e.to_string()),
+      _ => serde_json::from_value::<IotaDocument>(whole.clone()).map_err(|e| e.to_string()),
+    }),
+    Route::Tuple | Route::FromCore => {
+      let Ok(core) = CoreDocument::from_json(&doc.to_string()) else { return None };
+      if route == Route::FromCore {
+        return Some(Ok(IotaDocument::from(core)));
+      }
+      let Ok(m) = IotaDocumentMetadata::from_json(&meta.to_string()) else { return None };
+      Some(IotaDocument::try_from((core, m)).map_err(|e| e.to_string()))
+    }
+    Route::Unpack => {
+      let bytes = packed_state_metadata(text.as_bytes())?;
+      Some(StateMetadataDocument::unpack(&bytes).and_then(|s| s.into_iota_document(own)).map_err(|e| e.to_string()))
+    }
+    Route::SmJson => Some(match StateMetadataDocument::from_json(&text) {
+      Ok(s) => s.into_iota_document(own).map_err(|e| e.to_string()),
+      Err(e) => Err(e.to_string()),
+    }),
+    Route::PackUnpack => Some(match StateMetadataDocument::from_json(&text) {
+      Ok(s) => s
+        .pack(StateMetadataEncoding::Json)
+        .and_then(|b| StateMetadataDocument::unpack(&b))
+        .and_then(|s| s.into_iota_document(own))
+        .map_err(|e| e.to_string()),
+      Err(e) => Err(e.to_string()),
+    }),
+  })
+}
+
+impl Ctx {
+  /// One DID handed out by a document accessor. Validity and normal form are separate findings; a value in normal
+  /// form goes through every oracle of the string paths (accessors, recomposition, round trips, pairwise equality).
+  fn judge_exposed(&mut self, origin: &'static str, rsig: &str, accessor: &'static str, text: &str, v: &IotaDID) -> bool {
+    self.rep.inc("doc_dids_exposed");
+    let s: String = match catch(|| v.as_str().to_string()) {
+      Ok(s) => s,
+      Err(p) => {
+        self.panic_viol("as_str", &p, json!({"path":origin,"document":text}));
+        return false;
+      }
+    };
+    let not_normal = match strict_normal(&s) {
+      Ok(_) => {
+        self.rep.inc("doc_dids_exposed_normal");
+        self.check_value(origin, "document", text, v, None);
+        return true;
+      }
+      Err(r) => r,
+    };
+    match loosely_valid(&s) {
+      Ok(()) => {
+        self.rep.inc("doc_dids_exposed_non_normal");
+        self.rep.violation(
+          &format!("document-exposes-non-normal-form-did:{}", accessor),
+          &format!("{}() of a document accepted by {} hands out the IotaDID {:?}: a valid IOTA DID, but not held in normal form ({})", accessor, origin, s, not_normal),
+          json!({"path":origin,"accessor":accessor,"held":s,"reason":not_normal,"document":text}),
+        );
+      }
+      Err(why) => {
+        self.rep.inc("doc_dids_exposed_invalid");
+        // what a caller sees of such a value (observation only, no further signatures)
+        let seen = catch(|| {
+          (
+            v.method().to_string(),
+            v.network_str().to_string(),
+            v.tag_str().to_string(),
+            IotaDID::parse(&s).map(|d| d.to_string()).map_err(|e| e.to_string()),
+          )
+        });
+        let seen = match seen {
+          Ok((m, n, t, r)) => json!({"method":m,"network_str":n,"tag_str":t,"reparse":format!("{:?}", r)}),
+          Err(p) => {
+            harness_bug(&p);
+            json!({"accessor_panic":p.msg,"at":p.loc()})
+          }
+        };
+        self.rep.violation(
+          &format!("document-exposes-invalid-did:{}:{}", rsig, accessor),
+          &format!("{}() of a document accepted by {} hands out {:?} as an IotaDID, which is not a valid IOTA DID ({})", accessor, origin, s, why),
+          json!({"path":origin,"accessor":accessor,"held":s,"reason":why,"seen":seen,"document":text}),
+        );
+      }
+    }
+    false
+  }
+
+  /// Every `&IotaDID` the accessors of an accepted document hand out. Returns whether all were in normal form.
+  fn judge_document(&mut self, origin: &'static str, rsig: &str, text: &str, d: &IotaDocument) -> bool {
+    self.rep.inc("doc_judged");
+    let exposed = catch(|| {
+      let mut v: Vec<(&'static str, IotaDID)> = vec![("id", d.id().clone())];
+      for c in d.controller() {
+        v.push(("controller", c.clone()));
+      }
+      v
+    });
+    match exposed {
+      Err(p) => {
+        self.panic_viol("document-accessor", &p, json!({"path":origin,"document":text}));
+        false
+      }
+      Ok(list) => {
+        if list.len() > 1 {
+          self.rep.inc("doc_judged_with_controllers");
+        }
+        let mut all = true;
+        for (acc, v) in &list {
+          all &= self.judge_exposed(origin, rsig, acc, text, v);
+        }
+        all
+      }
+    }
+  }
+
+  /// An accepted document whose DIDs were all fine is written out and read back (JSON, packed state metadata):
+  /// whatever comes back is judged again; a refusal on the way is not this property's business.
+  fn document_roundtrips(&mut self, text: &str, d: &IotaDocument) {
+    self.rep.eval();
+    match catch(|| d.to_json().ok().and_then(|j| IotaDocument::from_json(&j).ok())) {
+      Err(p) => self.panic_viol("document-roundtrip", &p, json!({"document":text})),
+      Ok(None) => self.rep.inc("doc_roundtrip_refused"),
+      Ok(Some(back)) => {
+        self.rep.inc("doc_roundtrips");
+        self.judge_document("IotaDocument::to_json -> from_json", "roundtrip", text, &back);
+      }
+    }
+    self.rep.eval();
+    let r = catch(|| {
+      let id = d.id().clone();
+      d.clone().pack().ok().and_then(|b| StateMetadataDocument::unpack(&b).ok()).and_then(|s| s.into_iota_document(&id).ok())
+    });
+    match r {
+      Err(p) => self.panic_viol("document-roundtrip", &p, json!({"document":text})),
+      Ok(None) => self.rep.inc("doc_roundtrip_refused"),
+      Ok(Some(back)) => {
+        self.rep.inc("doc_roundtrips");
+        self.judge_document("IotaDocument::pack -> unpack.into_iota_document", "roundtrip", text, &back);
+      }
+    }
+  }
+
+  /// One document through every route that turns foreign data into an `IotaDocument`. Whether a document is accepted
+  /// is not judged (a refusal is always fine); every DID an accepted one hands out is.
+  fn doc_case(&mut self, case: &DocCase, own: &Model, rng: &mut Rng) {
+    let own_text = normal(own);
+    let own_did = match catch(|| IotaDID::parse(&own_text)) {
+      Ok(Ok(d)) => d,
+      _ => {
+        // judged by the string paths
+        self.rep.inc("doc_own_did_unavailable");
+        return;
+      }
+    };
+    let malformed_iota = case.slots().any(|s| s.malformed_iota());
+    for route in ALL_ROUTES {
+      let sub = rng.below(5);
+      let roundtrip = rng.chance(1, 4);
+      self.rep.eval();
+      self.rep.inc("doc_cases");
+      let (doc, meta) = case.render(route.state_metadata(), &own_text);
+      let text = json!({"doc":doc,"meta":meta}).to_string();
+      match build_document(route, sub, &doc, &meta, &own_did) {
+        Err(p) => self.panic_viol(&format!("document-{}", route.sig()), &p, json!({"path":route.name(),"document":text})),
+        Ok(None) => self.rep.inc("doc_route_not_applicable"),
+        Ok(Some(Err(_))) => {
+          self.rep.inc("doc_refused");
+          self.rep.distinct("nontrivial", &format!("doc|rej|{}|{}", route.sig(), case.layout));
+          if route != Route::FromCore {
+            if case.mixed_list() {
+              self.rep.inc("doc_mixed_list_refused");
+            }
+            if malformed_iota && route.state_metadata() {
+              self.rep.inc("doc_state_metadata_malformed_iota_refused");
+            }
+          }
+        }
+        Ok(Some(Ok(d))) => {
+          self.rep.inc("doc_accepted");
+          if case.has_invalid() {
+            self.rep.inc("doc_accepted_with_invalid_slot");
+          }
+          self.rep.distinct("nontrivial", &format!("doc|acc|{}|{}", route.sig(), case.layout));
+          if self.rep.want_sample() && route == Route::Unpack && case.controller.as_ref().is_some_and(|c| c.1.len() > 1) {
+            self.rep.sample(json!({"path":route.name(),"document":text,"id":d.id().to_string(),"controller":d.controller().map(|c| c.to_string()).collect::<Vec<_>>()}));
+          }
+          let fine = self.judge_document(route.name(), route.sig(), &text, &d);
+          if fine && roundtrip {
+            self.document_roundtrips(&text, &d);
+          }
+        }
+      }
+    }
+  }
+
+  /// Documents built through the typed API from DIDs the library accepted (in whatever spelling): `new_with_id`,
+  /// `set_controller`, `new`.
+  fn typed_doc_case(&mut self, own: &Model, rng: &mut Rng) {
+    self.rep.eval();
+    let mut parsed: Vec<IotaDID> = Vec::new();
+    let n = 1 + rng.usize(4);
+    for i in 0..n {
+      let (net, tag) = if i == 0 { (own.net.clone(), own.tag) } else { (random_valid_net(rng), random_tag(rng)) };
+      let class = if rng.chance(1, 3) { 1 } else { 0 };
+      let Slot::Text(s, _, _) = random_slot_text(rng, &net, &tag, class) else { unreachable!() };
+      if let Ok(Ok(d)) = catch(|| IotaDID::parse(&s)) {
+        parsed.push(d);
+      }
+    }
+    if parsed.is_empty() {
+      return;
+    }
+    let text = format!("new_with_id({:?}) + set_controller({:?})", parsed[0].to_string(), parsed[1..].iter().map(|d| d.to_string()).collect::<Vec<_>>());
+    let built = catch(|| {
+      let mut d = IotaDocument::new_with_id(parsed[0].clone());
+      d.set_controller(parsed[1..].iter().cloned());
+      d
+    });
+    match built {
+      Err(p) => self.panic_viol("document-typed", &p, json!({"document":text})),
+      Ok(d) => {
+        self.rep.inc("doc_typed");
+        if self.judge_document("IotaDocument::new_with_id + set_controller", "typed", &text, &d) {
+          self.document_roundtrips(&text, &d);
+        }
+      }
+    }
+    if rng.chance(1, 4) {
+      self.rep.eval();
+      let name = own.net.clone();
+      match catch(|| NetworkName::try_from(name.clone()).map(|nn| IotaDocument::new(&nn))) {
+        Err(p) => self.panic_viol("document-typed", &p, json!({"network":name})),
+        Ok(Err(_)) => {}
+        Ok(Ok(d)) => {
+          self.rep.inc("doc_typed");
+          let t = format!("IotaDocument::new({:?})", name);
+          if self.judge_document("IotaDocument::new", "typed", &t, &d) {
+            self.document_roundtrips(&t, &d);
+          }
+        }
+      }
+    }
+  }
+}
+
+fn fresh_slot_text(rng: &mut Rng, class: u8) -> Slot {
+  let net = random_valid_net(rng);
+  let tag = random_tag(rng);
+  random_slot_text(rng, &net, &tag, class)
+}
+
+fn random_slot(rng: &mut Rng, own: &Model) -> Slot {
+  let (net, tag) = if rng.chance(1, 6) { (own.net.clone(), own.tag) } else { (random_valid_net(rng), random_tag(rng)) };
+  match rng.below(8) {
+    0 => Slot::Own,
+    1..=3 => random_slot_text(rng, &net, &tag, 0),
+    4 => random_slot_text(rng, &net, &tag, 1),
+    _ => random_slot_text(rng, &net, &tag, 2),
+  }
+}
+
+fn random_doc_case(rng: &mut Rng, own: &Model) -> DocCase {
+  let id = match rng.below(10) {
+    0..=4 => Slot::Own,
+    _ => random_slot(rng, own),
+  };
+  let controller = match rng.below(20) {
+    0..=2 => None,
+    3..=6 => Some((false, vec![random_slot(rng, own)])),
+    7..=8 => Some((true, vec![random_slot(rng, own)])),
+    _ => {
+      let n = 2 + rng.usize(3);
+      let mut list: Vec<Slot> = (0..n).map(|_| random_slot(rng, own)).collect();
+      // mostly: exactly one entry that is not a valid IOTA DID among conforming ones, at a random position
+      if rng.chance(1, 2) {
+        for s in list.iter_mut() {
+          if s.class() == 2 {
+            *s = fresh_slot_text(rng, 0);
+          }
+        }
+        let i = rng.usize(n);
+        list[i] = fresh_slot_text(rng, 2);
+      }
+      Some((true, list))
+    }
+  };
+  let layout = format!(
+    "id{}{}|{}",
+    id.class(),
+    if id.class() == 2 { id.kind() } else { "" },
+    match &controller {
+      None => "none".to_string(),
+      Some((l, c)) => format!("{}{}", if *l { "l" } else { "s" }, c.iter().map(|s| s.class().to_string()).collect::<String>()),
+    }
+  );
+  DocCase { id, controller, with_method: rng.chance(1, 3), full_meta: rng.chance(3, 4), layout }
+}
+
+/// Every spelling x every position (identifier, sole controller as string / list, first / middle / last of a list
+/// next to conforming entries and the own DID) x default and named own network (ignores the seed).
+fn doc_grid(cx: &mut Ctx, args: &Args, stride: u64, rng: &mut Rng) {
+  let dstride = stride.min(7);
+  let mut idx: u64 = 0;
+  for own_net in ["rms", "iota"] {
+    let mut own_tag = [0u8; 32];
+    let mut t1 = [0u8; 32];
+    let mut t2 = [0u8; 32];
+    for i in 0..32 {
+      own_tag[i] = [0x75, 0x91, 0xa0, 0xbc, 0x87, 0x2e, 0x3a][i % 7];
+      t1[i] = [0xfb, 0xaa, 0xa9, 0x19, 0xb5][i % 5];
+      t2[i] = (i as u8).wrapping_mul(37).wrapping_add(11);
+    }
+    let own = Model { net: own_net.to_string(), tag: own_tag };
+    let v1 = Slot::Text(normal(&Model { net: own_net.to_string(), tag: t1 }), "canon", 0);
+    let v2 = Slot::Text(normal(&Model { net: "smr".to_string(), tag: t2 }), "canon", 0);
+    for (s, k, c) in slot_spellings(own_net, &t2.map(|b| b ^ 0x5a)) {
+      let x = Slot::Text(s, k, c);
+      let layouts: Vec<(&str, Slot, Option<(bool, Vec<Slot>)>)> = vec![
+        ("id", x.clone(), None),
+        ("id+c", x.clone(), Some((true, vec![v1.clone()]))),
+        ("s", Slot::Own, Some((false, vec![x.clone()]))),
+        ("l1", Slot::Own, Some((true, vec![x.clone()]))),
+        ("l-xv", Slot::Own, Some((true, vec![x.clone(), v1.clone()]))),
+        ("l-vx", Slot::Own, Some((true, vec![v1.clone(), x.clone()]))),
+        ("l-vxv", Slot::Own, Some((true, vec![v1.clone(), x.clone(), v2.clone()]))),
+        ("l-vvx", Slot::Own, Some((true, vec![v1.clone(), v2.clone(), x.clone()]))),
+        ("l-ox", Slot::Own, Some((true, vec![Slot::Own, x.clone()]))),
+        ("l-xo", Slot::Own, Some((true, vec![x.clone(), Slot::Own]))),
+        ("id=v,l-vx", v2.clone(), Some((true, vec![v1.clone(), x.clone()]))),
+      ];
+      for (name, id, controller) in layouts {
+        idx += 1;
+        if idx % dstride != 0 || !args.mine(idx / dstride) {
+          continue;
+        }
+        cx.rep.inc("doc_grid_cases");
+        let case = DocCase { id, controller, with_method: idx % 3 == 0, full_meta: idx % 4 != 0, layout: format!("grid|{}|{}|{}", name, k, own_net == "iota") };
+        cx.doc_case(&case, &own, rng);
+        cx.close_family(rng);
+      }
+    }
+  }
+  cx.rep.note("doc_grid_size", json!(idx));
+}
+
 fn main() {
   let args = Args::parse();
   let scale = args.extra_u64("scale", 1000).max(1);
@@ -1155,7 +1766,14 @@ fn main() {
      through new/placeholder/from_alias_id, (d) from_alias_id over every alias id shape (bare tag, one or two network segments in \
      front of / behind the tag, whole DIDs, URL parts, whitespace, wrong lengths) x default and named networks: whatever is returned must be \
      a normal-form DID on the network that was given, (e) the serde route into NetworkName (the names of (c) as JSON strings, escaped and \
-     padded spellings, non-string JSON, random names): whatever is accepted must be 1-6 of [a-z0-9] and work with the builders. \
+     padded spellings, non-string JSON, random names): whatever is accepted must be 1-6 of [a-z0-9] and work with the builders, \
+     (f) IOTA DIDs exposed by documents: documents written by the harness (id and controller positions filled with the own DID / the \
+     did:0:0 placeholder, normal-form, valid-but-unnormalised and ~45 kinds of malformed DIDs; controller absent, a string, a list of 1-4 \
+     with the odd entry at every position) go through IotaDocument::from_json (5 serde entry points), TryFrom<(CoreDocument, metadata)>, \
+     From<CoreDocument>, StateMetadataDocument::unpack of harness-packed bytes / from_json / pack+unpack followed by into_iota_document, \
+     and the typed constructors; a refusal is fine, every DID that id() / controller() of an accepted document hand out (also after a \
+     JSON and a pack/unpack round trip) must be a valid IOTA DID (own signature per validation site) in normal form (separate signature) \
+     and then passes all value oracles above. \
      non-trivial+distinct = decided cases classed by (outcome, path, spelling/mutation kind, \
      network class) resp. grid coordinates resp. (name length, validity)",
   );
@@ -1316,6 +1934,21 @@ fn main() {
       };
       let j = serde_json::to_string(&name).expect("json");
       cx.netname_serde_case(&j, Some(&name), "string", &tag, &mut rng);
+      cx.close_family(&mut rng);
+    }
+  }
+
+  // ---- (f) IOTA DIDs exposed by documents: every spelling x every position, then random documents
+  {
+    doc_grid(&mut cx, &args, stride, &mut rng);
+    let n_docs = sc(if args.thorough { 600_000 } else { 24_000 });
+    for i in 0..(n_docs / nsh).max(1) {
+      let own = Model { net: if rng.chance(1, 3) { "iota".to_string() } else { random_valid_net(&mut rng) }, tag: random_tag(&mut rng) };
+      let case = random_doc_case(&mut rng, &own);
+      cx.doc_case(&case, &own, &mut rng);
+      if i % 8 == 0 {
+        cx.typed_doc_case(&own, &mut rng);
+      }
       cx.close_family(&mut rng);
     }
   }
